@@ -627,7 +627,7 @@ func ruleIDGenerator(r *Run) {
 				if se, ok := ast.Unparen(recvExpr(call)).(*ast.SelectorExpr); ok {
 					if sel, ok := holder.Info().Selections[se]; ok && sel.Kind() == types.FieldVal {
 						if nt, ok := derefNamedT(sel.Recv()); ok {
-							key = r.P.OwnerName(nt) + "." + sel.Obj().Name()
+							key = r.P.OwnerName(nt) + "." + r.P.FieldName(sel.Obj().(*types.Var))
 						}
 					}
 				}
